@@ -76,6 +76,13 @@ def parse_vspec(path):
                 g["prelude"] += arg.split()
             elif d == "lemmas":
                 g["lemmas"] += arg.split()
+            elif d == "import":
+                # @@import group:unit [unit...]  -> the unit's contract, taken verbatim from the other group,
+                # is *assumed* here (external_body); it is proved where it is defined.
+                grp, first = arg.split()[0].split(":")
+                for un in [first] + arg.split()[1:]:
+                    g["units"].append({"import": (grp, un), "name": un, "kind": "import", "props": [], "fns": {}})
+                unit = None
             elif d == "trusted_include":
                 g["includes"] += arg.split()
             elif d.startswith("#"):
@@ -155,7 +162,12 @@ def parse_vspec(path):
                 cur = ("loop", a[0], a[1] if len(a) > 1 else None)
             elif d == "closure":
                 a = arg.split()
-                cur = ("closure", a[0], a[1] if len(a) > 1 else None)
+                h = next((x[5:] for x in a[1:] if x.startswith("hash=")), None)
+                rest = [x for x in a[1:] if not x.startswith("hash=")]
+                fnn = rest[0] if rest else None
+                if h:
+                    fnspec(unit, fnn).setdefault("closure_hashes", {})[a[0]] = h
+                cur = ("closure", a[0], fnn)
             elif d == "hint":
                 # @@hint before|after|first [nth=N] [fn=name] anchor text...
                 a = arg.split(None, 1)
@@ -199,6 +211,32 @@ def load_groups():
     for f in sorted(os.listdir(d)):
         if f.endswith(".vspec"):
             gs.append(parse_vspec(os.path.join(d, f)))
+    byname = {g["name"]: g for g in gs}
+    import copy
+    for g in gs:
+        for i, u in enumerate(g["units"]):
+            if u.get("kind") == "import":
+                grp, un = u["import"]
+                src = next((x for x in byname[grp]["units"] if x["name"] == un), None)
+                if src is None:
+                    raise SystemExit(f"{g['path']}: import {grp}:{un} not found")
+                c = copy.deepcopy(src)
+                c["props"] = []
+                c["imported_from"] = grp
+                c["novac"] = True
+                if c["kind"] in ("fn", "method", "impl"):
+                    if not c["fns"]:
+                        c["fns"] = {c.get("default_fn") or "_": {"loops": {}, "closures": {}, "hints": [], "tries": {}, "pins": [], "attrs": []}}
+                    for fs in c["fns"].values():
+                        fs["external_body"] = True
+                        fs["loops"] = {}
+                        fs["closures"] = {}
+                        fs["hints"] = []
+                        fs["pins"] = []
+                        fs["tries"] = {}
+                        if fs.get("spec"):
+                            fs["spec"] = fs["spec"].replace("/*@ob ", "/*@assumed ")
+                g["units"][i] = c
     return gs
 
 
@@ -316,7 +354,17 @@ def assemble(group, outs, vac_names=None):
                 lines.append("}")
         open_mod = None
 
+    # units of one emit_mod are emitted together, at the position of the first of them
+    ordered = []
+    seen_mods = set()
     for u in group["units"]:
+        m = u.get("emit_mod")
+        if not m:
+            ordered.append(u)
+        elif m not in seen_mods:
+            seen_mods.add(m)
+            ordered += [x for x in group["units"] if x.get("emit_mod") == m]
+    for u in ordered:
         if u["kind"] == "text":
             text = u["raw_text"]
         else:
